@@ -187,12 +187,12 @@ def c18(tier):
 
 def c08(tier):
     if tier == "quick":
-        return [dict(model="clone", configs=cfgs(["heap8c", "fence24d"], (R,))), dict(model="clonefixed", configs=cfgs(["stackn3", "stack8c"], (R,)))]
+        return [dict(model="clone", configs=cfgs(["heap8c", "fence24d", "heap3c", "heap0c"], (R,))), dict(model="clonefixed", configs=cfgs(["stackn3", "stack8c"], (R,)))]
     return [dict(model="clone", configs=cfgs(["heap8c", "heap3c", "heap0c", "heap8css", "heap160", "fence24d"], (R, D))),
             dict(model="clonefixed", configs=cfgs(["stackn3", "stack8c"], (R, D)))]
 def c09(tier):
     if tier == "quick":
-        return [dict(model="lazy", configs=cfgs(["heap8c", "heap160"], (R,)))]
+        return [dict(model="lazy", configs=cfgs(["heap8c", "heap160"], (R,))), dict(model="lazyf", configs=cfgs(["heap3c", "heap0c"], (R,)))]
     return [dict(model="lazy", configs=cfgs(["heap8c", "heap160", "heap8css", "fence24d"], (R, D))), dict(model="clonefixed", configs=cfgs(["stackn3"], (R,)))]
 
 def c17(tier):
